@@ -186,13 +186,12 @@ def _conform_filename(
         )
         rewrite_at_query.visit(parsed_ast)
 
-        print(
-            "modified" if rewrite_at_query.replaced else "unchanged", filename, sep="\t"
-        )
-        if rewrite_at_query.replaced:
+        # report (and write) by contents: on interpreters where the emitted tree never compares
+        # equal to the parsed one, an up-to-date file must still come out as "unchanged"
+        replaced = rewrite_at_query.replaced and bool(
             emit.file(parsed_ast, filename, mode="wt", skip_black=False)
-
-        replaced = rewrite_at_query.replaced
+        )
+        print("modified" if replaced else "unchanged", filename, sep="\t")
 
     return filename, replaced
 
